@@ -85,13 +85,30 @@ OnlyBarsFill(s, s2, c) ==
 
 \* completeness with unlimited liquidity and ample funds (ample = the reservation was accepted and nobody else
 \* competes for the funds: a single open order, no lending)
+\* the price an order trades at with unlimited liquidity (no slippage) in a bar that triggers it
+FillPx(o, bar) ==
+  CASE o.type = "market" -> bar.o
+    [] o.type = "limit"  -> IF o.op = "buy" THEN (IF bar.o < o.limit THEN bar.o ELSE o.limit)
+                                            ELSE (IF bar.o > o.limit THEN bar.o ELSE o.limit)
+    [] o.type = "stop"   -> IF o.op = "buy" THEN (IF bar.o >= o.stop THEN bar.o ELSE o.stop)
+                                            ELSE (IF bar.o <= o.stop THEN bar.o ELSE o.stop)
+    [] OTHER -> bar.o
+\* "dust": the traded quote amount would round to zero at the quote precision
+Dust(o, bar) == RHE((o.amount - o.filled) * FillPx(o, bar), PD(o.pair)) = 0
+MustComplete(s, o, bar) ==
+  \/ (o.type = "market" /\ (o.op = "sell" \/ (s.last[o.pair] > 0 /\ bar.o <= s.last[o.pair])))
+  \/ (o.type = "limit" /\ (IF o.op = "buy" THEN bar.l <= o.limit ELSE bar.h >= o.limit))
+  \/ (o.type = "stop" /\ o.op = "sell" /\ bar.l <= o.stop)
+CompleteScope(s, c) == c.kind = "bar" /\ C.liqMode = "inf" /\ C.lendMode = "none" /\ Cardinality(OpenOrderIdx(s)) = 1
 Complete_OK(s, s2, c) ==
-  (c.kind = "bar" /\ C.liqMode = "inf" /\ C.lendMode = "none" /\ Cardinality(OpenOrderIdx(s)) = 1) =>
+  CompleteScope(s, c) =>
     \A i \in OpenOrderIdx(s) : LET o == s.orders[i]  o2 == s2.orders[i]  bar == c.arg IN
-      (o.pair = bar.p /\ o.at < bar.t) =>
-        /\ (o.type = "market" /\ (o.op = "sell" \/ (s.last[o.pair] > 0 /\ bar.o <= s.last[o.pair])) => o2.state = "completed")
-        /\ (o.type = "limit" /\ (IF o.op = "buy" THEN bar.l <= o.limit ELSE bar.h >= o.limit) => o2.state = "completed")
-        /\ (o.type = "stop" /\ o.op = "sell" /\ bar.l <= o.stop => o2.state = "completed")
+      (o.pair = bar.p /\ o.at < bar.t /\ MustComplete(s, o, bar) /\ ~Dust(o, bar)) => o2.state = "completed"
+\* the same for fills whose quote amount rounds to zero: the exchange ignores such fills (known finding KF-1)
+CompleteDust_OK(s, s2, c) ==
+  CompleteScope(s, c) =>
+    \A i \in OpenOrderIdx(s) : LET o == s.orders[i]  o2 == s2.orders[i]  bar == c.arg IN
+      (o.pair = bar.p /\ o.at < bar.t /\ MustComplete(s, o, bar) /\ Dust(o, bar)) => o2.state = "completed"
 
 \* C08: liquidity cap of the bar
 LiquidityCap_OK(s, s2, c) ==
